@@ -45,11 +45,13 @@ func buildMaskRule(p string, matchCase bool) (*maskRule, string) {
 	}
 	text := p + opts
 	r, err := rules.NewNetworkRule(text, 1)
-	if err == nil && rules.VerifPattern(r) == eff {
+	if err == nil && !strings.HasSuffix(p, "\\") {
+		// The reference is built from the documented effective pattern; if the
+		// implementation derives another one, the language comparison shows it.
 		return &maskRule{p, eff, matchCase, text, r}, ""
 	}
-	// the option splitter changed the pattern (today: patterns ending in a
-	// backslash, "\$" being the escaped delimiter); try without options
+	// "\$" is the escaped options delimiter: a pattern ending in a backslash
+	// cannot carry options; try without them
 	if !matchCase && len(p) >= 3 {
 		r, err = rules.NewNetworkRule(p, 1)
 		if err == nil && rules.VerifPattern(r) == eff {
